@@ -3,6 +3,7 @@ import TrackVerif.Common.Dec
 import TrackVerif.CLI.Model
 import TrackVerif.LT.Fmt
 import TrackVerif.Generated.CLI
+import TrackVerif.CLI.SpecTables
 /-
   Line-protocol side of the CLI area (C20).
 
@@ -102,7 +103,10 @@ def handleCl (toks impl : List String) : String :=
   let parsed := do
     let cname ← field toks "cmd"
     let which ← field toks "which"
-    let cmd ← Gen.CLI.commands.find? (fun (c : CliCmd) => c.sect = cname)
+    -- the verdicts are against the specification's table (`tables_match_spec`: equal to the
+    -- regenerated one on the unchanged tree; if the source's table changes the search for a
+    -- failing input still runs against what the commands are supposed to accept)
+    let cmd ← SpecTables.commands.find? (fun (c : CliCmd) => c.sect = cname)
     let fl ← (field toks "F").bind parseKVs
     let c ← ((field toks "C").bind parseKVs).bind buildCfg
     let given ← givenOf cmd fl
@@ -143,8 +147,8 @@ def handleCl (toks impl : List String) : String :=
           else if pipe == "liberr" then (if exit = 0 then "VIOL clause=cl.exit_status why=undecodable-input" else "OK nt=1 cls=badinput")
           else if exit ≠ 0 then "VIOL clause=cl.spurious_failure"
           else if pipe ≠ "same" then s!"VIOL clause=cl.pipeline got={pipe}"
-          else if (io.drop 1).toString == "f" ∧ wrote ≠ "file" then s!"VIOL clause=cl.output_target wrote={wrote}"
-          else if (io.drop 1).toString == "o" ∧ wrote ≠ "stdout" then s!"VIOL clause=cl.output_target wrote={wrote}"
+          else if ((io.drop 1).take 1).toString == "f" ∧ wrote ≠ "file" then s!"VIOL clause=cl.output_target wrote={wrote}"
+          else if ((io.drop 1).take 1).toString == "o" ∧ wrote ≠ "stdout" then s!"VIOL clause=cl.output_target wrote={wrote}"
           else "OK nt=1 cls=convert"
         else if cname == "gopro.laptimes" then
           match (field impl "hits").bind nat?, (field impl "want").bind int? with
